@@ -120,7 +120,8 @@ func (b *Batch) Get(key []byte) ([]byte, error) {
 		if logRecord.Type == datafile.LogRecordDeleted {
 			return nil, ErrKeyNotFound
 		}
-		return logRecord.Value, nil
+		// 暂存记录的 value 缓冲区会被后续 Put 原地改写, 提交后还会随记录回到对象池, 须返回副本
+		return append([]byte{}, logRecord.Value...), nil
 	}
 
 	// 记录未缓存则执行查询
